@@ -6,8 +6,10 @@
    compensated by a renumbered slot map) rather than assumed away.  The same for the memory index of
    a memory operator ([mslot]): the machine has ONE 32-bit memory, reached iff [mslot index = 0].
    Memory is a sparse byte map (address -> byte, absent = 0) with a current and a maximal size in pages.
-   Total: a stack underflow, a type mismatch, an unbound slot or any operator outside the core is
-   [Halt Trap] (state unchanged). *)
+   Total: a stack underflow, a type mismatch, an unbound or ill-typed slot, the wrong memory slot or any operator
+   outside the core is [Halt Wrong] (state unchanged) - GOING WRONG, which no validated body does
+   (Proofs/TypeSafety.v); [Halt Trap] is kept for the genuine WebAssembly traps: unreachable, division by zero,
+   overflow of div_s, out-of-bounds access. *)
 From Coq Require Import List NArith ZArith Bool. Import ListNotations.
 From WV Require Import Gen.Ops Model.Common Model.IR Model.ParseFn Model.ParseSpec Model.EmitFn Model.BodySpec Model.Sem.
 Open Scope N_scope.
@@ -19,7 +21,7 @@ Record st := { stk : list val (* top first *); locs : list (N * val) (* SLOT -> 
                mem : list (N * N) (* THE memory: address -> byte, absent = 0; [mset] keeps the keys unique *);
                pages : N (* current size in 64 KiB pages *);
                max_pages : N (* memory.grow succeeds iff the new size is <= this *) }.
-Inductive halt := Trap | Return.
+Inductive halt := Trap | Return | Wrong.   (* Wrong: a failure no validated program reaches *)
 
 (* ------------------------------------------------------------------ bit-pattern arithmetic *)
 Definition m32 : N := 4294967296.               (* 2^32 *)
@@ -118,53 +120,54 @@ Definition with_mem (s : st) (k : list val) (m : list (N * N)) : st :=
   {| stk := k; locs := locs s; globs := globs s; labs := labs s; mem := m; pages := pages s; max_pages := max_pages s |}.
 Definition with_pages (s : st) (k : list val) (p : N) : st :=
   {| stk := k; locs := locs s; globs := globs s; labs := labs s; mem := mem s; pages := p; max_pages := max_pages s |}.
-Definition trap (s : st) : step st halt := Halt Trap s.
+Definition trap (s : st) : step st halt := Halt Trap s.     (* a genuine WebAssembly trap *)
+Definition wrong (s : st) : step st halt := Halt Wrong s.   (* stack underflow, operand of the wrong type, unbound or ill-typed slot, wrong memory slot, operator outside the core *)
 Definition push (v : val) (s : st) : step st halt := Next (with_stk s (v :: stk s)).
 
 Definition bin32 (f : N -> N -> N) (s : st) : step st halt :=
   match stk s with
   | VI32 b :: VI32 a :: k => Next (with_stk s (VI32 (f a b) :: k))     (* b is the top = second operand *)
-  | _ => trap s
+  | _ => wrong s
   end.
 Definition bin64 (f : N -> N -> N) (s : st) : step st halt :=
   match stk s with
   | VI64 b :: VI64 a :: k => Next (with_stk s (VI64 (f a b) :: k))
-  | _ => trap s
+  | _ => wrong s
   end.
 (* division-like: traps when the divisor is zero *)
 Definition div32 (f : N -> N -> N) (s : st) : step st halt :=
   match stk s with
   | VI32 b :: VI32 a :: k => if b =? 0 then trap s else Next (with_stk s (VI32 (f a b) :: k))
-  | _ => trap s
+  | _ => wrong s
   end.
 
 Definition div64 (f : N -> N -> N) (s : st) : step st halt :=
   match stk s with
   | VI64 b :: VI64 a :: k => if b =? 0 then trap s else Next (with_stk s (VI64 (f a b) :: k))
-  | _ => trap s
+  | _ => wrong s
   end.
 (* signed division: additionally traps on INT_MIN / -1 (the quotient is not representable) *)
 Definition divs32_op (s : st) : step st halt :=
   match stk s with
   | VI32 b :: VI32 a :: k =>
       if b =? 0 then trap s else if (a =? h32) && (b =? m32 - 1) then trap s else Next (with_stk s (VI32 (divs32 a b) :: k))
-  | _ => trap s
+  | _ => wrong s
   end.
 Definition divs64_op (s : st) : step st halt :=
   match stk s with
   | VI64 b :: VI64 a :: k =>
       if b =? 0 then trap s else if (a =? h64) && (b =? m64 - 1) then trap s else Next (with_stk s (VI64 (divs64 a b) :: k))
-  | _ => trap s
+  | _ => wrong s
   end.
 Definition un32 (f : N -> N) (s : st) : step st halt :=
-  match stk s with VI32 a :: k => Next (with_stk s (VI32 (f a) :: k)) | _ => trap s end.
+  match stk s with VI32 a :: k => Next (with_stk s (VI32 (f a) :: k)) | _ => wrong s end.
 Definition un64 (f : N -> N) (s : st) : step st halt :=
-  match stk s with VI64 a :: k => Next (with_stk s (VI64 (f a) :: k)) | _ => trap s end.
+  match stk s with VI64 a :: k => Next (with_stk s (VI64 (f a) :: k)) | _ => wrong s end.
 (* i64 comparisons: two i64 in, an i32 out *)
 Definition cmp64 (f : N -> N -> bool) (s : st) : step st halt :=
   match stk s with
   | VI64 b :: VI64 a :: k => Next (with_stk s (VI32 (b2n (f a b)) :: k))
-  | _ => trap s
+  | _ => wrong s
   end.
 
 (* ---- memory operators.  [mi] = the slot of the operator's memory index; [off] = the offset immediate.
@@ -177,9 +180,9 @@ Definition mem_load (mi off : N) (width : nat) (post : N -> val) (s : st) : step
     | VI32 a :: k =>
         let ea := a + off in
         if in_bounds s ea width then Next (with_stk s (post (load_bytes width ea (mem s)) :: k)) else trap s
-    | _ => trap s
+    | _ => wrong s
     end
-  else trap s.
+  else wrong s.
 (* [is64]: the type of the value operand (on top; the address is below it) *)
 Definition mem_store (mi off : N) (width : nat) (is64 : bool) (s : st) : step st halt :=
   if mi =? 0 then
@@ -189,13 +192,13 @@ Definition mem_store (mi off : N) (width : nat) (is64 : bool) (s : st) : step st
         match v, is64 with
         | VI32 n, false | VI64 n, true =>
             if in_bounds s ea width then Next (with_mem s k (store_bytes width ea n (mem s))) else trap s
-        | _, _ => trap s
+        | _, _ => wrong s
         end
-    | _ => trap s
+    | _ => wrong s
     end
-  else trap s.
+  else wrong s.
 Definition mem_size (mi : N) (s : st) : step st halt :=
-  if mi =? 0 then push (VI32 (pages s)) s else trap s.
+  if mi =? 0 then push (VI32 (pages s)) s else wrong s.
 (* memory.grow: the old size, or -1 (and no change) when the new size would exceed [max_pages] *)
 Definition mem_grow (mi : N) (s : st) : step st halt :=
   if mi =? 0 then
@@ -203,37 +206,37 @@ Definition mem_grow (mi : N) (s : st) : step st halt :=
     | VI32 d :: k =>
         if pages s + d <=? max_pages s then Next (with_pages s (VI32 (pages s) :: k) (pages s + d))
         else Next (with_stk s (VI32 (m32 - 1) :: k))
-    | _ => trap s
+    | _ => wrong s
     end
-  else trap s.
+  else wrong s.
 
 Definition local_get (slot : N) (s : st) : step st halt :=
-  match alookup slot (locs s) with Some v => push v s | None => trap s end.
+  match alookup slot (locs s) with Some v => push v s | None => wrong s end.
 Definition local_set (slot : N) (s : st) : step st halt :=
   match stk s with
   | v :: k => match aset slot v (locs s) with
               | Some l' => Next (with_locs s k l')
-              | None => trap s
+              | None => wrong s
               end
-  | [] => trap s
+  | [] => wrong s
   end.
 Definition local_tee (slot : N) (s : st) : step st halt :=
   match stk s with
   | v :: k => match aset slot v (locs s) with
               | Some l' => Next (with_locs s (v :: k) l')
-              | None => trap s
+              | None => wrong s
               end
-  | [] => trap s
+  | [] => wrong s
   end.
 Definition global_get (slot : N) (s : st) : step st halt :=
-  match alookup slot (globs s) with Some v => push v s | None => trap s end.
+  match alookup slot (globs s) with Some v => push v s | None => wrong s end.
 Definition global_set (slot : N) (s : st) : step st halt :=
   match stk s with
   | v :: k => match aset slot v (globs s) with
               | Some g' => Next (with_globs s k g')
-              | None => trap s
+              | None => wrong s
               end
-  | [] => trap s
+  | [] => wrong s
   end.
 
 (* ------------------------------------------------------------------ the core *)
@@ -304,20 +307,20 @@ Definition core_op (lslot gslot mslot : N -> N) (o : wop) (s : st) : step st hal
   | W_I32RemU => div32 N.modulo s
   | W_I32Shl => bin32 shl32 s
   | W_I32ShrU => bin32 shru32 s
-  | W_I32WrapI64 => match stk s with VI64 a :: k => Next (with_stk s (VI32 (wrap32 a) :: k)) | _ => trap s end
-  | W_I64ExtendI32U => match stk s with VI32 a :: k => Next (with_stk s (VI64 a :: k)) | _ => trap s end
+  | W_I32WrapI64 => match stk s with VI64 a :: k => Next (with_stk s (VI32 (wrap32 a) :: k)) | _ => wrong s end
+  | W_I64ExtendI32U => match stk s with VI32 a :: k => Next (with_stk s (VI64 a :: k)) | _ => wrong s end
   | W_LocalGet i => local_get (lslot i) s
   | W_LocalSet i => local_set (lslot i) s
   | W_LocalTee i => local_tee (lslot i) s
   | W_GlobalGet i => global_get (gslot i) s
   | W_GlobalSet i => global_set (gslot i) s
-  | W_Drop => match stk s with _ :: k => Next (with_stk s k) | [] => trap s end
+  | W_Drop => match stk s with _ :: k => Next (with_stk s k) | [] => wrong s end
   | W_Select =>
       (* untyped select: both alternatives of the same numeric type *)
       match stk s with
       | VI32 c :: v2 :: v1 :: k =>
-          if same_ty v1 v2 then Next (with_stk s ((if c =? 0 then v2 else v1) :: k)) else trap s
-      | _ => trap s
+          if same_ty v1 v2 then Next (with_stk s ((if c =? 0 then v2 else v1) :: k)) else wrong s
+      | _ => wrong s
       end
   | W_Return => Halt Return s
   | W_Unreachable => Halt Trap s
@@ -339,7 +342,7 @@ Definition core_op (lslot gslot mslot : N -> N) (o : wop) (s : st) : step st hal
   | W_I32Extend8S => un32 (sext 256 m32) s
   | W_I32Extend16S => un32 (sext 65536 m32) s
   (* ---- i64 *)
-  | W_I64Eqz => match stk s with VI64 a :: k => Next (with_stk s (VI32 (b2n (a =? 0)) :: k)) | _ => trap s end
+  | W_I64Eqz => match stk s with VI64 a :: k => Next (with_stk s (VI32 (b2n (a =? 0)) :: k)) | _ => wrong s end
   | W_I64Eq => cmp64 (fun a b => a =? b) s
   | W_I64Ne => cmp64 (fun a b => negb (a =? b)) s
   | W_I64LtS => cmp64 lts64 s
@@ -362,7 +365,7 @@ Definition core_op (lslot gslot mslot : N -> N) (o : wop) (s : st) : step st hal
   | W_I64Clz => un64 (clz 64) s
   | W_I64Ctz => un64 (ctz 64) s
   | W_I64Popcnt => un64 popcnt s
-  | W_I64ExtendI32S => match stk s with VI32 a :: k => Next (with_stk s (VI64 (sext m32 m64 a) :: k)) | _ => trap s end
+  | W_I64ExtendI32S => match stk s with VI32 a :: k => Next (with_stk s (VI64 (sext m32 m64 a) :: k)) | _ => wrong s end
   | W_I64Extend8S => un64 (sext 256 m64) s
   | W_I64Extend16S => un64 (sext 65536 m64) s
   | W_I64Extend32S => un64 (sext m32 m64) s
@@ -388,13 +391,13 @@ Definition core_op (lslot gslot mslot : N -> N) (o : wop) (s : st) : step st hal
   | W_I64Store32 m => mem_store (mslot (wa_memory m)) (wa_offset m) 4 true s
   | W_MemorySize i => mem_size (mslot i) s
   | W_MemoryGrow i => mem_grow (mslot i) s
-  | _ => Halt Trap s
+  | _ => Halt Wrong s
   end.
 
 Definition core_sem (lslot gslot mslot : N -> N) (w : wins) (s : st) : step st halt :=
   match w with
   | WOp o => core_op lslot gslot mslot o s
-  | _ => Halt Trap s
+  | _ => Halt Wrong s
   end.
 
 (* ------------------------------------------------------------------ the remaining parameters of Model/Sem.v *)
